@@ -413,6 +413,9 @@ impl Worker {
                     for (ji, jr) in r.jobs.iter().enumerate() {
                         if let Some(jr) = jr {
                             rm.obs.push((wi, ji, jr.key, jr.obs.hash()));
+                            if std::env::var("SIMC_SHOW_PRE").is_ok() {
+                                rm.outcomes.push(format!("diag: {}", jr.obs.diag));
+                            }
                             rm.outcomes.push(format!("world {} job {} [{}]: {}", wi, ji, w.jobs[ji].label, jr.obs.outcome.short().chars().take(300).collect::<String>()));
                             all.push((wi, ji, jr.clone()));
                         }
